@@ -3,10 +3,12 @@ package plugin
 // Shared helpers of the /verif harnesses in package plugin (C13-C16).
 
 import (
-	"slices"
 	"errors"
 	"fmt"
+	"github.com/mdlayher/corerad/internal/verifkit"
 	"net/netip"
+	"slices"
+	"sync"
 	"time"
 
 	"github.com/mdlayher/corerad/internal/system"
@@ -108,4 +110,77 @@ func vkReflag(list []system.IP, mode int) []system.IP {
 		}
 	}
 	return out
+}
+
+// vkOverlapped runs one application that waits for its listing (gated: its first lookup blocks until released) while
+// another application - of the same plugin object or of a second one of the same kind - runs to completion, and then a
+// short burst of applications from four goroutines at once. The daemon does this all the time: the advertiser, the
+// metrics collector and the HTTP handlers build RAs from the same plugin objects. Every application must yield what it
+// yields alone. Real goroutines, real clock; judged by values only.
+func vkOverlapped(sig string, gated func(gate func()) (string, error), other func() (string, error), wantGated, wantOther string, alone func() (string, error)) error {
+	entered, release := make(chan struct{}), make(chan struct{})
+	var once sync.Once
+	gate := func() {
+		first := false
+		once.Do(func() { first = true })
+		if first {
+			close(entered)
+			<-release
+		}
+	}
+	var g1 string
+	var e1 error
+	done := make(chan struct{})
+	go func() { defer close(done); g1, e1 = gated(gate) }()
+	select {
+	case <-entered:
+	case <-done: // (the application did not look anything up: nothing to overlap with)
+		close(release)
+		return nil
+	}
+	g2, e2 := other()
+	close(release)
+	<-done
+	if v, ok := e1.(*verifkit.Violation); ok {
+		return v
+	}
+	if v, ok := e2.(*verifkit.Violation); ok {
+		return v
+	}
+	if e1 != nil || e2 != nil {
+		return verifkit.Violf(sig+"/overlap-error", "an application that overlaps another failed: %v / %v", e1, e2)
+	}
+	if g1 != wantGated {
+		return verifkit.Violf(sig+"/overlapping-applications", "an application that waited for its listing while another ran to completion yields\n%s\nalone it yields\n%s\n(the other one: %s)", g1, wantGated, g2)
+	}
+	if g2 != wantOther {
+		return verifkit.Violf(sig+"/overlapping-applications", "an application that ran while another was waiting for its listing yields\n%s\nalone it yields\n%s", g2, wantOther)
+	}
+	// ... and four goroutines at once, no gate: whatever the interleaving, the same value
+	var wg sync.WaitGroup
+	errs := make([]error, 4)
+	for g := range errs {
+		wg.Add(1)
+		go func() {
+			defer wg.Done()
+			for i := 0; i < 25; i++ {
+				got, err := alone()
+				if err != nil {
+					errs[g] = err
+					return
+				}
+				if got != wantGated {
+					errs[g] = verifkit.Violf(sig+"/concurrent-applications", "four goroutines apply one plugin at the same time; one application yields\n%s\nalone it yields\n%s", got, wantGated)
+					return
+				}
+			}
+		}()
+	}
+	wg.Wait()
+	for _, err := range errs {
+		if err != nil {
+			return err
+		}
+	}
+	return nil
 }
